@@ -131,7 +131,7 @@ def init_eval(prog):
         reg["http://reg/one#"] = _Registered(META1)
         reg["http://reg/two"] = _Registered(META2)
         referrer, mine, theirs = {"$id": "http://b/"}, {"mine": 1}, {"theirs": 2}
-        caller_store = {"http://reg/two": mine, "http://b/": theirs, "http://other/": theirs}
+        caller_store = {"http://reg/two": mine, "http://b/": theirs, "http://other/": theirs, "http://frag/#": theirs}
         handlers = {"sch": lambda uri: None}
         r1 = R("http://b/", referrer, store=caller_store, handlers=handlers)
         g = lambda o, n: ev.obj_getattr(o, n)
@@ -142,6 +142,8 @@ def init_eval(prog):
             out["seed"] = "a registered metaschema is not in a new resolver's store under its id (found %r)" % (got.get("http://reg/one"),)
         elif got.get("http://other/") is not theirs:
             out["seed"] = "the caller's store entries are not taken over"
+        elif "http://frag/" not in st or st["http://frag/"] is not theirs:
+            out["seed"] = "an entry of the caller's store written with an empty fragment ('http://frag/#') is not found under 'http://frag/': its key was not normalised"
         out["seed-order"] = None
         if got.get("http://reg/two") is not mine:
             out["seed-order"] = "an entry of the caller's store does not replace the registry's entry for the same URI"
@@ -177,6 +179,17 @@ def init_eval(prog):
                 out["caches"] = "caches supplied by the caller are not used as given"
             elif g(r1, "_remote_cache")("http://other/#/theirs") != 2 or g(r2, "_urljoin_cache")("http://c/x/y", "../z") != "http://c/z":
                 out["caches"] = "the default caches are not caches of this resolver's resolve_from_url / of urljoin"
+            else:
+                hits = []
+
+                def h(uri):
+                    hits.append(uri)
+                    return {"x": 1}
+                r5 = R("http://f/", {}, handlers={"sch": h}, cache_remote=False)
+                g(r5, "_remote_cache")("sch://host/doc#/x")
+                g(r5, "_remote_cache")("sch://host/doc#/x")
+                if len(hits) != 1:
+                    out["caches"] = "the default remote cache does not cache: the same URL is retrieved %d times" % len(hits)
         ev.native(lambda: [reg.__delitem__(k) for k in ("http://reg/one", "http://reg/two")])
     except Undecided:
         return None
